@@ -9,7 +9,7 @@ from ..core import AnalysisError, norm
 from .. import symx, spec, aud, sign
 from ..aud import REL, W
 from ..symx import Tx, E, I, T, S, is_zero, leaves, val_atoms, fmt_cond, eval_val, rows
-from ..astutil import walk_local, stores, parent, find_calls, returned_names
+from ..astutil import walk_local, stores, parent, find_calls, returned_names, ancestors
 from ..cfg import whole_collection
 
 META = dict(
@@ -48,6 +48,7 @@ def run(chk):
     r4_margin(chk)
     r5_mean(chk)
     r6_tally_rule(chk)
+    r6b_tally_validity(chk)
     r7_dispatch(chk)
     r_get_vote_for(chk)
 
@@ -331,14 +332,12 @@ def r4_margin(chk):
 
 
 def r5_mean(chk):
-    mean = chk.fn(REL, "Assorter.mean", canonical=True)
-    f, node = aud.style_filter(mean)
-    if f is None:
-        raise AnalysisError("Assorter.mean: style-filter idiom not found")
+    mf = aud.mean_facts(chk)
     want_f = spec.cond_term("(not use_style) or c.has_contest(self.contest.id)")
-    ok, n, cex = aud.cond_equiv(f("c", lambda: Tx()), want_f)
+    ok = mf["filter"] is not None and aud.cond_equiv(mf["filter"], want_f)[0] and mf["over_filtered"]
     chk.ob("C02.R5", W("Assorter.mean"), "mean-population", ok,
-           "the mean is over exactly the cards that list the contest when use_style, all cards otherwise", node=node, strength="N")
+           "the mean is over exactly the cards that list the contest when use_style, all cards otherwise (numerator and denominator "
+           "over the same cards)", node=mf["node"], strength="N", **mf["detail"])
 
 
 def r6_tally_rule(chk):
@@ -370,6 +369,60 @@ def r6_tally_rule(chk):
            "ballots or neither does), so that margin-from-tally == 2*mean(assorter) - 1 on every ballot set",
            node=guards[0] if guards else fn, strength="N", tally_discards_overvotes_by_default=tally_filters,
            assorter_discards_overvotes=assorter_filters)
+
+
+def r6b_tally_validity(chk):
+    """When is a card tallied?  The super-majority assorter scores a card with more than one mark as invalid (has_one_vote), the
+    margin-from-tally of C02.R4 uses the tally's valid votes: the tally must therefore drop over-voted cards whenever rules are
+    enforced, whatever the contest's choice function -- the condition that guards the tally increment is decided as a table."""
+    from ..canon import expand_locals
+    fn = chk.fn(REL, "Contest.tally")
+    where = W("Contest.tally")
+    incs = [s0 for s0 in walk_local(fn) if isinstance(s0, ast.AugAssign) and isinstance(s0.target, ast.Subscript) and norm(s0.target.value).endswith(".tally")]
+    ok = False
+    detail = {}
+    if len(incs) == 1:
+        inc = incs[0]
+        cv = norm(inc.target.value)[:-len(".tally")]
+        loops = [a for a in ancestors(inc) if isinstance(a, ast.For)]
+        card_loop = next((l for l in loops if norm(l.iter) == "cvr_list"), None)
+        conds = []
+        n_, p_ = inc, parent(inc)
+        while p_ is not None and p_ is not card_loop and p_ is not fn:
+            if isinstance(p_, ast.If):
+                t_ = expand_locals(p_.test, fn)
+                try:
+                    c_ = Tx().cond(t_)
+                except symx.Unsupported:
+                    c_ = ("atom", "opaque:" + norm(t_)[:50])
+                if norm(p_.test) != norm(inc.target.slice):  # `if candidate:` skips the empty key, not a validity rule
+                    conds.append(c_ if n_ in p_.body else symx.c_not(c_))
+            n_, p_ = p_, parent(p_)
+        got = symx.c_and(*conds) if conds else True
+        cardv = norm(card_loop.target) if card_loop is not None else "cvr"
+        # the mark counter: whatever is compared with the contest's n_winners
+        NV = None
+        for x in ast.walk(fn):
+            if isinstance(x, ast.Compare) and len(x.ops) == 1 and isinstance(x.left, ast.Name) and norm(x.comparators[0]) == f"{cv}.n_winners":
+                NV = x.left.id
+            if isinstance(x, ast.Compare) and len(x.ops) == 1 and isinstance(x.comparators[0], ast.Name) and norm(x.left) == f"{cv}.n_winners":
+                NV = x.comparators[0].id
+        ok = False
+        if NV is not None:
+            want = spec.cond_term(f"{cardv}.has_contest({cv}.id) and ((not enforce_rules) or ({NV} <= {cv}.n_winners))")
+            detail["guard"] = fmt_cond(got) if got not in (True, False) else str(got)
+            ok = card_loop is not None and got not in (True, False) and aud.cond_equiv(got, want)[0]
+            # the counter counts the truthy marks of the card in this contest
+            cnt = [s0 for s0 in walk_local(fn) if isinstance(s0, ast.AugAssign) and norm(s0.target) == NV]
+            if len(cnt) == 1:
+                lp = next((a for a in ancestors(cnt[0]) if isinstance(a, ast.For)), None)
+                mv = norm(lp.target.elts[1]) if lp is not None and isinstance(lp.target, ast.Tuple) and len(lp.target.elts) == 2 else None
+                ok = ok and mv is not None and norm(cnt[0].value) in (f"int(bool({mv}))", f"bool({mv})", f"CVR.as_vote({mv})")
+            else:
+                ok = False
+    chk.ob("C02.R6", where, "over-voted-cards-dropped-whenever-rules-are-enforced", ok,
+           "a card's marks are tallied iff it lists the contest and (rules are not enforced or it has at most n_winners marks), for "
+           "every choice function the tally covers", node=incs[0] if incs else fn, strength="N", **detail)
 
 
 SPEC_DISPATCH = '''
